@@ -574,7 +574,7 @@ func (b *B) Loop() {
 		defer func() { b.freeWalk = append(b.freeWalk, walk) }()
 		strides := []int{4, 4, 8, 64, 64, 68, 128, 60}
 		if b.P.BigWorkingSet {
-			strides = []int{64, 64, 128, 68, 192}
+			strides = []int{64, 64, 128, 128, 68, 192}
 			iters = r.Range(8, max(8, b.P.LoopMaxIter))
 		}
 		stride = strides[r.Intn(len(strides))]
@@ -649,7 +649,7 @@ func (b *B) Call(fns *[]pendingFn) {
 func (b *B) Pair() {
 	r := b.R
 	x := b.Dst()
-	switch r.Intn(6) {
+	switch r.Intn(8) {
 	case 0: // RAW chain where the consumer is itself a producer
 		n := r.Range(2, 5)
 		b.AluTo(x)
@@ -677,6 +677,21 @@ func (b *B) Pair() {
 		b.LoadTo(x)
 		b.Emit(isa.Inst{Op: isa.ADD, Rd: b.Dst(), Rs1: x, Rs2: x})
 		b.Tag("waw-alu-load")
+	case 6: // WAR behind a stalled reader: the older reader of y waits for a load
+		y := b.Dst()
+		l := b.Dst()
+		b.LoadTo(l)
+		b.Emit(isa.Inst{Op: []isa.Op{isa.ADD, isa.SUB, isa.XOR}[r.Intn(3)], Rd: b.Dst(), Rs1: l, Rs2: y})
+		for k := r.Intn(3); k > 0; k-- {
+			// other readers of y retire meanwhile (sometimes with y as both sources)
+			if r.Bool() {
+				b.Emit(isa.Inst{Op: isa.ADD, Rd: b.Dst(), Rs1: y, Rs2: y})
+			} else {
+				b.Emit(isa.Inst{Op: isa.OR, Rd: b.Dst(), Rs1: y, Rs2: b.Src()})
+			}
+		}
+		b.AluTo(y)
+		b.Tag("war-stalled-reader")
 	default: // fan
 		b.AluTo(x)
 		n := r.Range(2, 4)
